@@ -13,6 +13,7 @@ def showSlot : Slot → String
   | .optMany k => s!"optMany:{k}"
   | .each k => s!"each:{k}"
   | .need k => s!"need:{k}"
+  | .oneUnless k o => s!"oneUnless:{k}:{o}"
   | .firstOf alts => "firstOf:" ++ ",".intercalate (alts.map fun (k, b) => k ++ (if b then "+" else "-"))
   | .sub k b m => s!"sub:{k}:{b}:" ++ (match m with | .dist => "dist" | .transform => "transform")
 
